@@ -125,6 +125,27 @@ def watComplete (s : Names) (fixed : Bool) : Names := ((watFinalize 3 s fixed).1
 def cleanup (s : Names) (first second : Str) : Names :=
   if s.contains first && s.contains second then remove s first else s
 
+/-! ### histidine naming (aa.py `HIS.set_state`): the last change of an atom set in a run -/
+
+/-- remove a name if it is there (`if self.has_atom(n): self.remove_atom(n)`) -/
+def dropIf (s : Names) (n : Str) : Names := if s.contains n then remove s n else s
+
+/-- `HIS.set_state`, atom-set part: unless the residue is doubly protonated by patch or by name
+(`hip`), one of HD1 / HE2 is dropped according to the donor / acceptor flags the optimisation left
+on ND1 and NE2; the default is to drop HE2 (HID) -/
+def hisSetState (hip nd1D nd1A ne2D ne2A : Bool) (s : Names) : Names :=
+  if hip then s
+  else if nd1D && !nd1A then dropIf s (str "HE2")
+  else if (ne2D && !ne2A) || (nd1A && !nd1D) then dropIf s (str "HD1")
+  else dropIf s (str "HE2")
+
+/-- the state name read off the atoms afterwards; `none` is the TypeError for a ring with neither proton -/
+def hisName (s : Names) : Option Str :=
+  if s.contains (str "HD1") && s.contains (str "HE2") then some (str "HIP")
+  else if s.contains (str "HD1") then some (str "HID")
+  else if s.contains (str "HE2") then some (str "HIE")
+  else none
+
 /-! ### heavy-atom repair and hydrogen addition (biomolecule.py) -/
 
 def isH (n : Str) : Bool := n.head? = some 'H'
